@@ -30,3 +30,128 @@ theorem splitlines_ne_nil (s : Str) (h : s ≠ []) : splitlines s ≠ [] := by
       · exact splitlinesAux_false_ne_nil _ _ (by simp)
 
 end PcVerif.Str
+
+namespace PcVerif.Str
+
+theorem splitChar_ne_nil (d : Char) (s : Str) : splitChar d s ≠ [] := by
+  cases s with
+  | nil => simp [splitChar]
+  | cons c s =>
+    unfold splitChar
+    split
+    · simp
+    · split <;> simp
+
+theorem splitChar_no_sep (d : Char) (a : Str) (h : d ∉ a) : splitChar d a = [a] := by
+  induction a with
+  | nil => simp [splitChar]
+  | cons c a ih =>
+    have hc : c ≠ d := fun e => h (by simp [e])
+    have ha : d ∉ a := fun e => h (List.mem_cons_of_mem _ e)
+    simp [splitChar, hc, ih ha]
+
+theorem splitChar_append_sep (d : Char) (a rest : Str) (h : d ∉ a) :
+    splitChar d (a ++ d :: rest) = a :: splitChar d rest := by
+  induction a with
+  | nil => simp [splitChar]
+  | cons c a ih =>
+    have hc : c ≠ d := fun e => h (by simp [e])
+    have ha : d ∉ a := fun e => h (List.mem_cons_of_mem _ e)
+    simp [splitChar, hc, ih ha]
+
+/-- a string of ASCII digits -/
+def Digits (s : Str) : Prop := s ≠ [] ∧ allAsciiDigits s = true
+
+theorem allAsciiDigits_mem (s : Str) (h : allAsciiDigits s = true) (c : Char) (hc : c ∈ s) : isAsciiDigit c = true := by
+  induction s with
+  | nil => simp at hc
+  | cons x s ih =>
+    simp only [allAsciiDigits, Bool.and_eq_true] at h
+    simp only [List.mem_cons] at hc
+    rcases hc with rfl | hc
+    · exact h.1
+    · exact ih h.2 hc
+
+theorem Digits.not_mem {s : Str} (h : Digits s) (c : Char) (hc : isAsciiDigit c = false) : c ∉ s := by
+  intro hm
+  have := allAsciiDigits_mem s h.2 c hm
+  simp [hc] at this
+
+theorem Digits.parseNat {s : Str} (h : Digits s) : parseNat? s = some (natOfDigits s) := by
+  simp [parseNat?, h.1, h.2]
+
+end PcVerif.Str
+
+namespace PcVerif.Str
+
+theorem isDecimal_of_ascii (c : Char) (h : isAsciiDigit c = true) : isDecimal c = true := by
+  have h1 : 48 ≤ c.toNat ∧ c.toNat ≤ 57 := by
+    simp only [isAsciiDigit, Bool.and_eq_true, decide_eq_true_eq] at h
+    exact ⟨by have := h.1; exact this, by have := h.2; exact this⟩
+  unfold isDecimal inRanges Generated.decimalRanges
+  simp only [List.any_cons, Bool.or_eq_true, Bool.and_eq_true, decide_eq_true_eq]
+  exact Or.inl h1
+
+theorem Digits.allDecimal {s : Str} (h : Digits s) : ∀ c ∈ s, isDecimal c = true :=
+  fun c hc => isDecimal_of_ascii c (allAsciiDigits_mem s h.2 c hc)
+
+end PcVerif.Str
+
+namespace PcVerif.Str
+
+theorem spanDecimals_spec (s : Str) : s = (spanDecimals s).1 ++ (spanDecimals s).2 ∧
+    (∀ c ∈ (spanDecimals s).1, isDecimal c = true) := by
+  induction s with
+  | nil => simp [spanDecimals]
+  | cons c s ih =>
+    unfold spanDecimals
+    split
+    · rename_i h
+      obtain ⟨e, hd⟩ := ih
+      refine ⟨by simpa using e, ?_⟩
+      intro x hx
+      simp only [List.mem_cons] at hx
+      rcases hx with rfl | hx
+      · exact h
+      · exact hd x hx
+    · simp
+
+theorem spanDecimals_append (a rest : Str) (ha : ∀ c ∈ a, isDecimal c = true)
+    (hr : ∀ c r, rest = c :: r → isDecimal c = false) : spanDecimals (a ++ rest) = (a, rest) := by
+  induction a with
+  | nil =>
+    cases rest with
+    | nil => simp [spanDecimals]
+    | cons c r => simp [spanDecimals, hr c r rfl]
+  | cons x a ih =>
+    have hx : isDecimal x = true := ha x (by simp)
+    have := ih (fun c hc => ha c (List.mem_cons_of_mem _ hc))
+    simp [spanDecimals, hx, this]
+
+theorem dropPrefix?_spec (s p r : Str) (h : dropPrefix? s p = some r) : s = p ++ r := by
+  induction p generalizing s with
+  | nil => simp [dropPrefix?] at h; simp [h]
+  | cons c p ih =>
+    cases s with
+    | nil => simp [dropPrefix?] at h
+    | cons d s =>
+      simp only [dropPrefix?] at h
+      split at h
+      · rename_i e; subst e; simp [ih s h]
+      · simp at h
+
+theorem dropPrefix?_append (p r : Str) : dropPrefix? (p ++ r) p = some r := by
+  induction p with
+  | nil => cases r <;> simp [dropPrefix?]
+  | cons c p ih => simp [dropPrefix?, ih]
+
+theorem takeDec_append (a rest : Str) (ha : ∀ c ∈ a, isDecimal c = true) :
+    takeDec a.length (a ++ rest) = some (a, rest) := by
+  induction a with
+  | nil => simp [takeDec]
+  | cons x a ih =>
+    have hx : isDecimal x = true := ha x (by simp)
+    have := ih (fun c hc => ha c (List.mem_cons_of_mem _ hc))
+    simp [takeDec, hx, this]
+
+end PcVerif.Str
